@@ -20,7 +20,7 @@ pub open spec fn w_tree(ss: Seq<LuaScope>) -> bool {
     &&& forall|i: int| 0 <= i < 5 ==> (#[trigger] ss[i]).id.id as int == i
     &&& ss[0].parent is None && par(ss, 1) == 0 && par(ss, 2) == 1 && par(ss, 3) == 1 && par(ss, 4) == 3
     &&& kd(ss, 0) == LuaScopeKind::Normal && kd(ss, 1) == LuaScopeKind::Normal && kd(ss, 2) == LuaScopeKind::LocalOrAssignStat
-    &&& kd(ss, 3) == W_FOR_KIND && kd(ss, 4) == LuaScopeKind::Normal
+    &&& kd(ss, 3) == W_FOR_KIND && kd(ss, 4) == W_BODY_KIND
     &&& st(ss, 0) == 0 && en(ss, 0) == 36 && st(ss, 1) == 0 && en(ss, 1) == 36 && st(ss, 2) == 0 && en(ss, 2) == 12
     &&& st(ss, 3) == 13 && en(ss, 3) == 36 && st(ss, 4) == 29 && en(ss, 4) == 33
     &&& kids(ss, 0).len() == 1 && kids(ss, 0)[0] is Scope && sidx(kids(ss, 0)[0]) == 1
@@ -65,6 +65,11 @@ pub proof fn lemma_w_wf_declpos(ss: Seq<LuaScope>)
     ensures wf_declpos(ss)
 {}
 #[verifier::spinoff_prover]
+pub proof fn lemma_w_wf_body(ss: Seq<LuaScope>)
+    requires w_tree(ss)
+    ensures wf_body(ss)
+{}
+#[verifier::spinoff_prover]
 pub proof fn lemma_w_links(ss: Seq<LuaScope>)
     requires w_tree(ss)
     ensures links_wf(ss), wf_listed(ss)
@@ -88,6 +93,7 @@ pub proof fn lemma_w_tree_wf(ss: Seq<LuaScope>)
     lemma_w_wf_func(ss);
     lemma_w_wf_local(ss);
     lemma_w_wf_declpos(ss);
+    lemma_w_wf_body(ss);
 }
 
 /// verified test: builds the tree above, runs the REAL find_local_decl("n", 24) and concludes from its contract that it returns the loop
@@ -108,7 +114,7 @@ pub fn witness_numeric_for_header(d6: LuaDecl, d17: LuaDecl)
     scopes.push(w_scope(Some(w_sid(0)), c1, 0, 36, LuaScopeKind::Normal, 1));
     scopes.push(w_scope(Some(w_sid(1)), c2, 0, 12, LuaScopeKind::LocalOrAssignStat, 2));
     scopes.push(w_scope(Some(w_sid(1)), c3, 13, 36, W_FOR_KIND, 3));
-    scopes.push(w_scope(Some(w_sid(3)), c4, 29, 33, LuaScopeKind::Normal, 4));
+    scopes.push(w_scope(Some(w_sid(3)), c4, 29, 33, W_BODY_KIND, 4));
     let mut decls: HashMap<LuaDeclId, LuaDecl> = HashMap::new();
     decls.insert(id6, d6);
     decls.insert(id17, d17);
@@ -207,6 +213,11 @@ pub proof fn lemma_w2_wf_declpos(ss: Seq<LuaScope>)
     ensures wf_declpos(ss)
 {}
 #[verifier::spinoff_prover]
+pub proof fn lemma_w2_wf_body(ss: Seq<LuaScope>)
+    requires w2_tree(ss)
+    ensures wf_body(ss)
+{}
+#[verifier::spinoff_prover]
 pub proof fn lemma_w2_links(ss: Seq<LuaScope>)
     requires w2_tree(ss)
     ensures links_wf(ss), wf_listed(ss)
@@ -230,6 +241,7 @@ pub proof fn lemma_w2_tree_wf(ss: Seq<LuaScope>)
     lemma_w2_wf_func(ss);
     lemma_w2_wf_local(ss);
     lemma_w2_wf_declpos(ss);
+    lemma_w2_wf_body(ss);
 }
 pub fn witness_duplicate_names(d6: LuaDecl, d9: LuaDecl)
     requires keys_ok(), dname(&d6) == "a"@, dname(&d9) == "a"@
@@ -316,7 +328,7 @@ pub open spec fn w3_tree(ss: Seq<LuaScope>) -> bool {
     &&& forall|i: int| 0 <= i < 7 ==> (#[trigger] ss[i]).id.id as int == i
     &&& ss[0].parent is None && par(ss, 1) == 0 && par(ss, 2) == 1 && par(ss, 3) == 1 && par(ss, 4) == 3 && par(ss, 5) == 4 && par(ss, 6) == 3
     &&& kd(ss, 0) == LuaScopeKind::Normal && kd(ss, 1) == LuaScopeKind::Normal && kd(ss, 2) == LuaScopeKind::LocalOrAssignStat
-    &&& kd(ss, 3) == LuaScopeKind::ForRange && kd(ss, 4) == LuaScopeKind::Normal && kd(ss, 5) == LuaScopeKind::Normal && kd(ss, 6) == LuaScopeKind::Normal
+    &&& kd(ss, 3) == LuaScopeKind::ForRange && kd(ss, 4) == LuaScopeKind::Normal && kd(ss, 5) == LuaScopeKind::Normal && kd(ss, 6) == W_BODY_KIND
     &&& st(ss, 0) == 0 && en(ss, 0) == 61 && st(ss, 1) == 0 && en(ss, 1) == 61 && st(ss, 2) == 0 && en(ss, 2) == 11
     &&& st(ss, 3) == 12 && en(ss, 3) == 61 && st(ss, 4) == 26 && en(ss, 4) == 49 && st(ss, 5) == 37 && en(ss, 5) == 46 && st(ss, 6) == 54 && en(ss, 6) == 58
     &&& kids(ss, 0).len() == 1 && kids(ss, 0)[0] is Scope && sidx(kids(ss, 0)[0]) == 1
@@ -363,6 +375,11 @@ pub proof fn lemma_w3_wf_declpos(ss: Seq<LuaScope>)
     ensures wf_declpos(ss)
 {}
 #[verifier::spinoff_prover]
+pub proof fn lemma_w3_wf_body(ss: Seq<LuaScope>)
+    requires w3_tree(ss)
+    ensures wf_body(ss)
+{}
+#[verifier::spinoff_prover]
 pub proof fn lemma_w3_links(ss: Seq<LuaScope>)
     requires w3_tree(ss)
     ensures links_wf(ss), wf_listed(ss)
@@ -388,6 +405,7 @@ pub proof fn lemma_w3_tree_wf(ss: Seq<LuaScope>)
     lemma_w3_wf_func(ss);
     lemma_w3_wf_local(ss);
     lemma_w3_wf_declpos(ss);
+    lemma_w3_wf_body(ss);
 }
 pub fn witness_generic_for_header_closure(d6: LuaDecl, d16: LuaDecl, d19: LuaDecl)
     requires keys_ok(), dname(&d6) == "k"@, dname(&d16) == "k"@, dname(&d19) == "v"@
@@ -411,7 +429,7 @@ pub fn witness_generic_for_header_closure(d6: LuaDecl, d16: LuaDecl, d19: LuaDec
     scopes.push(w_scope(Some(w_sid(1)), c3, 12, 61, LuaScopeKind::ForRange, 3));
     scopes.push(w_scope(Some(w_sid(3)), c4, 26, 49, LuaScopeKind::Normal, 4));
     scopes.push(w_scope(Some(w_sid(4)), c5, 37, 46, LuaScopeKind::Normal, 5));
-    scopes.push(w_scope(Some(w_sid(3)), c6, 54, 58, LuaScopeKind::Normal, 6));
+    scopes.push(w_scope(Some(w_sid(3)), c6, 54, 58, W_BODY_KIND, 6));
     let mut decls: HashMap<LuaDeclId, LuaDecl> = HashMap::new();
     decls.insert(id6, d6);
     decls.insert(id16, d16);
@@ -456,6 +474,282 @@ pub fn witness_generic_for_header_closure(d6: LuaDecl, d16: LuaDecl, d19: LuaDec
         }
         if hdr_trav() && enc_for() {
             // repaired code: the outer local, as in Lua
+            assert(r is Some);
+            assert(r == Some(&tree.decls@[id6]));
+        }
+    }
+}
+
+// (5) finding L1 of the bounded search replay/c13: the tree is queried WHILE IT IS BUILT. When the declaration analyzer reaches the `v`
+// inside the closure of
+//        for v = (function() return v end)(), 2 do print(v) end
+// (loop variable v at 4, the closure = [9,32), its block = [20,28), the use at 27) the body block of the loop has no scope yet: the for
+// scope holds [v, closure]. With the body identified by its kind (body_kind()) the lookup finds no local (Lua: the global v); a traversal
+// that takes the LAST CHILD SCOPE for the body (hdr_trav() && !body_kind()) answers the loop variable - and, in that shape, so does the
+// unit's reading of the tree, which is why the unit could not see L1.
+pub open spec fn w4_tree(ss: Seq<LuaScope>) -> bool {
+    &&& ss.len() == 5
+    &&& forall|i: int| 0 <= i < 5 ==> (#[trigger] ss[i]).id.id as int == i
+    &&& ss[0].parent is None && par(ss, 1) == 0 && par(ss, 2) == 1 && par(ss, 3) == 2 && par(ss, 4) == 3
+    &&& kd(ss, 0) == LuaScopeKind::Normal && kd(ss, 1) == LuaScopeKind::Normal && kd(ss, 2) == W_FOR_KIND
+    &&& kd(ss, 3) == LuaScopeKind::Normal && kd(ss, 4) == LuaScopeKind::Normal
+    &&& st(ss, 0) == 0 && en(ss, 0) == 54 && st(ss, 1) == 0 && en(ss, 1) == 54 && st(ss, 2) == 0 && en(ss, 2) == 54
+    &&& st(ss, 3) == 9 && en(ss, 3) == 32 && st(ss, 4) == 20 && en(ss, 4) == 28
+    &&& kids(ss, 0).len() == 1 && kids(ss, 0)[0] is Scope && sidx(kids(ss, 0)[0]) == 1
+    &&& kids(ss, 1).len() == 1 && kids(ss, 1)[0] is Scope && sidx(kids(ss, 1)[0]) == 2
+    &&& kids(ss, 2).len() == 2 && kids(ss, 2)[0] is Decl && cpos(ss, kids(ss, 2)[0]) == 4 && kids(ss, 2)[1] is Scope && sidx(kids(ss, 2)[1]) == 3
+    &&& kids(ss, 3).len() == 1 && kids(ss, 3)[0] is Scope && sidx(kids(ss, 3)[0]) == 4
+    &&& kids(ss, 4).len() == 0
+}
+#[verifier::spinoff_prover]
+pub proof fn lemma_w4_wf_ranges(ss: Seq<LuaScope>)
+    requires w4_tree(ss)
+    ensures wf_ranges(ss)
+{}
+#[verifier::spinoff_prover]
+pub proof fn lemma_w4_wf_order(ss: Seq<LuaScope>)
+    requires w4_tree(ss)
+    ensures wf_order(ss)
+{}
+#[verifier::spinoff_prover]
+pub proof fn lemma_w4_wf_repeat(ss: Seq<LuaScope>)
+    requires w4_tree(ss)
+    ensures wf_repeat(ss)
+{}
+#[verifier::spinoff_prover]
+pub proof fn lemma_w4_wf_stmt(ss: Seq<LuaScope>)
+    requires w4_tree(ss)
+    ensures wf_stmt(ss)
+{}
+#[verifier::spinoff_prover]
+pub proof fn lemma_w4_wf_func(ss: Seq<LuaScope>)
+    requires w4_tree(ss)
+    ensures wf_func(ss)
+{}
+#[verifier::spinoff_prover]
+pub proof fn lemma_w4_wf_local(ss: Seq<LuaScope>)
+    requires w4_tree(ss)
+    ensures wf_local(ss)
+{}
+#[verifier::spinoff_prover]
+pub proof fn lemma_w4_wf_declpos(ss: Seq<LuaScope>)
+    requires w4_tree(ss)
+    ensures wf_declpos(ss)
+{}
+#[verifier::spinoff_prover]
+pub proof fn lemma_w4_wf_body(ss: Seq<LuaScope>)
+    requires w4_tree(ss)
+    ensures wf_body(ss)
+{}
+#[verifier::spinoff_prover]
+pub proof fn lemma_w4_links(ss: Seq<LuaScope>)
+    requires w4_tree(ss)
+    ensures links_wf(ss), wf_listed(ss)
+{
+    assert forall|i: int, k: int| 0 <= i < ss.len() && 0 <= k < kids(ss, i).len() implies
+        (#[trigger] kids(ss, i)[k] matches ScopeOrDeclId::Scope(sid) ==> i < sid.id < ss.len() && par(ss, sid.id as int) == i) by {
+        if i == 0 {} else if i == 1 {} else if i == 2 { if k == 0 {} else {} } else if i == 3 {} else {}
+    }
+    assert(is_scope_child(ss, 0, 0, 1)); assert(is_scope_child(ss, 1, 0, 2)); assert(is_scope_child(ss, 2, 1, 3)); assert(is_scope_child(ss, 3, 0, 4));
+}
+pub proof fn lemma_w4_tree_wf(ss: Seq<LuaScope>)
+    requires w4_tree(ss)
+    ensures tree_wf(ss)
+{
+    reveal(tree_wf);
+    lemma_w4_links(ss);
+    lemma_w4_wf_ranges(ss);
+    lemma_w4_wf_order(ss);
+    lemma_w4_wf_repeat(ss);
+    lemma_w4_wf_stmt(ss);
+    lemma_w4_wf_func(ss);
+    lemma_w4_wf_local(ss);
+    lemma_w4_wf_declpos(ss);
+    lemma_w4_wf_body(ss);
+}
+
+pub fn witness_header_closure_while_the_tree_is_built(d4: LuaDecl)
+    requires keys_ok(), dname(&d4) == "v"@
+{
+    let f = FileId { id: 0 };
+    let id4 = w_did(4);
+    let mut c0 = Vec::new(); c0.push(ScopeOrDeclId::Scope(w_sid(1)));
+    let mut c1 = Vec::new(); c1.push(ScopeOrDeclId::Scope(w_sid(2)));
+    let mut c2 = Vec::new(); c2.push(ScopeOrDeclId::Decl(id4)); c2.push(ScopeOrDeclId::Scope(w_sid(3)));
+    let mut c3 = Vec::new(); c3.push(ScopeOrDeclId::Scope(w_sid(4)));
+    let c4: Vec<ScopeOrDeclId> = Vec::new();
+    let mut scopes: Vec<LuaScope> = Vec::new();
+    scopes.push(w_scope(None, c0, 0, 54, LuaScopeKind::Normal, 0));
+    scopes.push(w_scope(Some(w_sid(0)), c1, 0, 54, LuaScopeKind::Normal, 1));
+    scopes.push(w_scope(Some(w_sid(1)), c2, 0, 54, W_FOR_KIND, 2));
+    scopes.push(w_scope(Some(w_sid(2)), c3, 9, 32, LuaScopeKind::Normal, 3));
+    scopes.push(w_scope(Some(w_sid(3)), c4, 20, 28, LuaScopeKind::Normal, 4));
+    let mut decls: HashMap<LuaDeclId, LuaDecl> = HashMap::new();
+    decls.insert(id4, d4);
+    let tree = LuaDeclarationTree { file_id: f, decls, scopes };
+    let ghost ss = tree.scopes@;
+    proof {
+        assert(w4_tree(ss));
+        lemma_w4_tree_wf(ss);
+        wf_basic(ss);
+    }
+    let r = tree.find_local_decl("v", TextSize::new(27));
+    proof {
+        reveal_strlit("v");
+        assert(is_decl_child(ss, 2, 0, id4));
+        assert(kids(ss, 2).last() == kids(ss, 2)[1]);
+        if hdr_trav() && enc_for() && body_kind() {
+            // the body is identified by its kind: there is none yet, the loop variable is not visible, the lookup finds no local
+            assert(!visible(ss, id4, 27, true)) by {
+                if visible(ss, id4, 27, true) {
+                    let (s, k) = choose|s: int, k: int| 0 <= s < ss.len() && is_decl_child(ss, s, k, id4) && region(ss, s, id4, 27, true);
+                    if s == 0 {} else if s == 1 {} else if s == 2 { assert(!in_body(ss, 2, 27)); } else if s == 3 {} else {}
+                    assert(false);
+                }
+            }
+            assert(r is None);
+        }
+        if hdr_trav() && enc_for() && !body_kind() {
+            // the body is "the last child scope": that is the header closure itself. FINDING L1: the loop variable is returned
+            assert(in_body(ss, 2, 27));
+            assert(region(ss, 2, id4, 27, false));
+            assert(visible(ss, id4, 27, false));
+            assert(r is Some);
+            assert(r == Some(&tree.decls@[id4]));
+        }
+    }
+}
+
+// (6) finding L2 of the bounded search: a repeat statement with an EMPTY body gets no body block (the parser drops empty nodes):
+//        local b = 1
+//        repeat until f(function(b) end, b)
+// (`local b = 1` = [0,11), b at 6; the repeat statement = [12,46), the closure = [27,42) with its parameter b at 36 and no block; the last
+// `b` at 44). With the body identified by its kind the Repeat scope has no body and find_local_decl("b", 44) is the local (6), as in Lua.
+// (A traversal that takes the FIRST CHILD SCOPE for the body answers the parameter (36); in that shape this tree is outside tree_wf -
+// "the first child of a repeat scope is the body block and holds no declarations" -, which is the assumption that was false.)
+pub open spec fn w5_tree(ss: Seq<LuaScope>) -> bool {
+    &&& ss.len() == 5
+    &&& forall|i: int| 0 <= i < 5 ==> (#[trigger] ss[i]).id.id as int == i
+    &&& ss[0].parent is None && par(ss, 1) == 0 && par(ss, 2) == 1 && par(ss, 3) == 1 && par(ss, 4) == 3
+    &&& kd(ss, 0) == LuaScopeKind::Normal && kd(ss, 1) == LuaScopeKind::Normal && kd(ss, 2) == LuaScopeKind::LocalOrAssignStat
+    &&& kd(ss, 3) == LuaScopeKind::Repeat && kd(ss, 4) == LuaScopeKind::Normal
+    &&& st(ss, 0) == 0 && en(ss, 0) == 47 && st(ss, 1) == 0 && en(ss, 1) == 47 && st(ss, 2) == 0 && en(ss, 2) == 11
+    &&& st(ss, 3) == 12 && en(ss, 3) == 46 && st(ss, 4) == 27 && en(ss, 4) == 42
+    &&& kids(ss, 0).len() == 1 && kids(ss, 0)[0] is Scope && sidx(kids(ss, 0)[0]) == 1
+    &&& kids(ss, 1).len() == 2 && kids(ss, 1)[0] is Scope && sidx(kids(ss, 1)[0]) == 2 && kids(ss, 1)[1] is Scope && sidx(kids(ss, 1)[1]) == 3
+    &&& kids(ss, 2).len() == 1 && kids(ss, 2)[0] is Decl && cpos(ss, kids(ss, 2)[0]) == 6
+    &&& kids(ss, 3).len() == 1 && kids(ss, 3)[0] is Scope && sidx(kids(ss, 3)[0]) == 4
+    &&& kids(ss, 4).len() == 1 && kids(ss, 4)[0] is Decl && cpos(ss, kids(ss, 4)[0]) == 36
+}
+#[verifier::spinoff_prover]
+pub proof fn lemma_w5_wf_ranges(ss: Seq<LuaScope>)
+    requires w5_tree(ss)
+    ensures wf_ranges(ss)
+{}
+#[verifier::spinoff_prover]
+pub proof fn lemma_w5_wf_order(ss: Seq<LuaScope>)
+    requires w5_tree(ss)
+    ensures wf_order(ss)
+{}
+#[verifier::spinoff_prover]
+pub proof fn lemma_w5_wf_repeat(ss: Seq<LuaScope>)
+    requires w5_tree(ss)
+    ensures body_kind() ==> wf_repeat(ss)
+{}
+#[verifier::spinoff_prover]
+pub proof fn lemma_w5_wf_stmt(ss: Seq<LuaScope>)
+    requires w5_tree(ss)
+    ensures wf_stmt(ss)
+{}
+#[verifier::spinoff_prover]
+pub proof fn lemma_w5_wf_func(ss: Seq<LuaScope>)
+    requires w5_tree(ss)
+    ensures wf_func(ss)
+{}
+#[verifier::spinoff_prover]
+pub proof fn lemma_w5_wf_local(ss: Seq<LuaScope>)
+    requires w5_tree(ss)
+    ensures wf_local(ss)
+{}
+#[verifier::spinoff_prover]
+pub proof fn lemma_w5_wf_declpos(ss: Seq<LuaScope>)
+    requires w5_tree(ss)
+    ensures wf_declpos(ss)
+{}
+#[verifier::spinoff_prover]
+pub proof fn lemma_w5_wf_body(ss: Seq<LuaScope>)
+    requires w5_tree(ss)
+    ensures wf_body(ss)
+{}
+#[verifier::spinoff_prover]
+pub proof fn lemma_w5_links(ss: Seq<LuaScope>)
+    requires w5_tree(ss)
+    ensures links_wf(ss), wf_listed(ss)
+{
+    assert forall|i: int, k: int| 0 <= i < ss.len() && 0 <= k < kids(ss, i).len() implies
+        (#[trigger] kids(ss, i)[k] matches ScopeOrDeclId::Scope(sid) ==> i < sid.id < ss.len() && par(ss, sid.id as int) == i) by {
+        if i == 0 {} else if i == 1 { if k == 0 {} else {} } else if i == 2 {} else if i == 3 {} else {}
+    }
+    assert(is_scope_child(ss, 0, 0, 1)); assert(is_scope_child(ss, 1, 0, 2)); assert(is_scope_child(ss, 1, 1, 3)); assert(is_scope_child(ss, 3, 0, 4));
+}
+pub proof fn lemma_w5_tree_wf(ss: Seq<LuaScope>)
+    requires w5_tree(ss)
+    ensures body_kind() ==> tree_wf(ss)
+{
+    reveal(tree_wf);
+    lemma_w5_links(ss);
+    lemma_w5_wf_ranges(ss);
+    lemma_w5_wf_order(ss);
+    lemma_w5_wf_repeat(ss);
+    lemma_w5_wf_stmt(ss);
+    lemma_w5_wf_func(ss);
+    lemma_w5_wf_local(ss);
+    lemma_w5_wf_declpos(ss);
+    lemma_w5_wf_body(ss);
+}
+
+pub fn witness_empty_repeat_condition(d6: LuaDecl, d36: LuaDecl)
+    requires keys_ok(), dname(&d6) == "b"@, dname(&d36) == "b"@
+{
+    let f = FileId { id: 0 };
+    let id6 = w_did(6);
+    let id36 = w_did(36);
+    let mut c0 = Vec::new(); c0.push(ScopeOrDeclId::Scope(w_sid(1)));
+    let mut c1 = Vec::new(); c1.push(ScopeOrDeclId::Scope(w_sid(2))); c1.push(ScopeOrDeclId::Scope(w_sid(3)));
+    let mut c2 = Vec::new(); c2.push(ScopeOrDeclId::Decl(id6));
+    let mut c3 = Vec::new(); c3.push(ScopeOrDeclId::Scope(w_sid(4)));
+    let mut c4 = Vec::new(); c4.push(ScopeOrDeclId::Decl(id36));
+    let mut scopes: Vec<LuaScope> = Vec::new();
+    scopes.push(w_scope(None, c0, 0, 47, LuaScopeKind::Normal, 0));
+    scopes.push(w_scope(Some(w_sid(0)), c1, 0, 47, LuaScopeKind::Normal, 1));
+    scopes.push(w_scope(Some(w_sid(1)), c2, 0, 11, LuaScopeKind::LocalOrAssignStat, 2));
+    scopes.push(w_scope(Some(w_sid(1)), c3, 12, 46, LuaScopeKind::Repeat, 3));
+    scopes.push(w_scope(Some(w_sid(3)), c4, 27, 42, LuaScopeKind::Normal, 4));
+    let mut decls: HashMap<LuaDeclId, LuaDecl> = HashMap::new();
+    decls.insert(id6, d6);
+    decls.insert(id36, d36);
+    let tree = LuaDeclarationTree { file_id: f, decls, scopes };
+    let ghost ss = tree.scopes@;
+    proof {
+        assert(w5_tree(ss));
+        lemma_w5_tree_wf(ss);
+    }
+    let r = tree.find_local_decl("b", TextSize::new(44));
+    proof {
+        reveal_strlit("b");
+        if hdr_trav() && enc_for() && body_kind() && dup_fixed() {
+            wf_basic(ss);
+            assert(is_decl_child(ss, 2, 0, id6) && is_decl_child(ss, 4, 0, id36));
+            assert(ext_inside(ss, 1, 44));
+            assert(region(ss, 2, id6, 44, true));
+            assert(visible(ss, id6, 44, true));
+            assert(!visible(ss, id36, 44, true)) by {
+                if visible(ss, id36, 44, true) {
+                    let (s, k) = choose|s: int, k: int| 0 <= s < ss.len() && is_decl_child(ss, s, k, id36) && region(ss, s, id36, 44, true);
+                    if s == 0 {} else if s == 1 {} else if s == 2 {} else if s == 3 {} else {}
+                    assert(false);
+                }
+            }
             assert(r is Some);
             assert(r == Some(&tree.decls@[id6]));
         }
